@@ -78,6 +78,15 @@ Inductive gimpl :=
 (* reflectToValue on a slice result: does isReflectValueExpectedType look at element 0 without a length test *)
 Inductive slice_guard := SliceIndexUnguarded | SliceLenGuarded | SliceUnknown.
 
+(* ---- what an evaluation could remember from one evaluation of a node to the next (translate/evaltables.go evalState) ---- *)
+(* a field of struct exprEval: never assigned after construction / the expression stack (Push, Pop, Peek only) / assigned
+   (or another pointer method called on it) in the functions listed *)
+Inductive field_use := FuRead | FuStack | FuWritten (fns:list string).
+(* a package-level variable of pkg/eval *)
+Inductive var_use := PvNeverWritten | PvWritten (fns:list string).
+(* what a map that is written to (index assignment, delete) is *)
+Inductive map_write_class := MwScope | MwLocal | MwParamMap | MwValueItems | MwPackage | MwField | MwAst | MwOther.
+
 (* ---- decidable equalities used as table keys ---- *)
 Definition vkind_eqb (a b:vkind) : bool :=
   match a, b with
